@@ -203,6 +203,17 @@ def gen_trace(rnd, length, bulk=False):
             if name == "Finish":
                 ev["r"] = args[0]
             tr.append(ev)
+        if bulk:
+            # a long run of receives that find their element buffered: each is a task given exactly one step, which is all
+            # it needs - hundreds in a row, none of them may suspend
+            if d.task is not None:
+                o = d.apply("Wake", ())
+                tr.append(dict(ev="Wake", res=list(o["a"]), fin=o["fin"]))
+            for _ in range(700):
+                if d.task is not None:
+                    break
+                o = d.apply("StartReceive", ())
+                tr.append(dict(ev="StartReceive", res=list(o["a"]), fin=o["fin"]))
         o = d.apply("Drain", ())
         tr.append(dict(ev="Drain", res=[o["a"][0], list(o["a"][1]), o["a"][2]], fin=o["fin"]))
     finally:
